@@ -14,12 +14,12 @@ PROP_ORACLES = {
     'C04': ['reader', 'writer', 'tree.memory', 'tree.physical', 'union.overlay', 'transfer', 'handles'],
     'C05': ['tree.memory', 'tree.altroot', 'tree.overlay', 'tree.physical', 'union.overlay', 'hostile.physical', 'walk.vanish'],
     'C06': ['paths'],
-    'C07': ['tree.altroot', 'composite.altroot', 'tree.physical', 'transfer', 'paths', 'tree.stack'],
+    'C07': ['tree.altroot', 'composite.altroot', 'tree.physical', 'transfer', 'paths', 'tree.stack', 'direct.altroot'],
     'C08': ['overlay', 'faults'],
     'C09': ['tree.overlay', 'union.overlay', 'overlay', 'tree.stack'],
     'C10': ['overlay', 'union.overlay'],
-    'C11': ['composite.memory', 'composite.altroot', 'composite.physical', 'transfer', 'copydir'],
-    'C12': ['paths', 'tree.memory', 'tree.altroot', 'walk.vanish', 'faults', 'hostile.physical'],
+    'C11': ['composite.memory', 'composite.altroot', 'composite.physical', 'transfer', 'copydir', 'direct.altroot'],
+    'C12': ['paths', 'tree.memory', 'tree.altroot', 'walk.vanish', 'faults', 'hostile.physical', 'direct.altroot'],
     'C13': ['paths', 'reader', 'writer', 'tree.memory', 'tree.altroot', 'tree.overlay', 'tree.physical', 'union.overlay', 'overlay', 'transfer', 'handles', 'hostile.physical', 'times', 'embedded', 'adiff:hostile', 'adiff:reader', 'adiff:schedule', 'adiff:steps.memory'],
     'C14': ['reader', 'writer', 'handles', 'tree.physical'],
     'C15': ['adiff:steps.memory', 'adiff:steps.altroot', 'adiff:steps.overlay', 'adiff:steps.physical', 'adiff:reader', 'adiff:schedule', 'adiff:hostile', 'adiff:transfer', 'adiff:handles', 'adiff:direct'],
@@ -46,6 +46,7 @@ BOUNDS = {
     'embedded': 'EmbeddedFS over the fixture folder replay/embed (nested, dotted, multi-byte, prefix-sharing names, an empty file) against PhysicalFS on the same folder: for every embedded file and implied directory, the root, and for each an extension, a prefix, a sibling and a path below it (65 paths): existence, type, length, bytes, listings, walk; every mutating call is refused as not-supported; nothing changes',
     'times': 'set_creation/modification/access_time: 3 fields x 3 fields (ordered pairs) x 7 instants (epoch, sub-second, before the epoch, far future) on a file, a directory and the root, on memory, altroot, overlay (upper-layer entries; also with layers that are sub-directories of their filesystems: nothing outside the layer changes), physical and altroot over physical; plus append sessions (creation time kept, also when set while the handle is open)',
     'walk.vanish': 'entries removed while a walk is under way (2 and 4 files; memory, altroot, overlay): one not-found error item per vanished entry, naming it, then the end; plus an altroot whose base directory is removed / replaced by a file underneath it: exists, is_dir, is_file, metadata, read_dir, walk_dir of its root agree',
+    'direct.altroot': 'AltrootFS::copy_file called on the filesystem object for every (src, dest) of 8 paths (root, files, a directory, absent, below an absent parent, multi-byte) on an altroot over a populated in-memory tree with an entry outside the root: root destination refused as NotSupported, existing destination refused, Ok => same bytes at the destination, nothing but the destination changes (inside or outside the altroot)',
     'adiff:direct': 'the optional trait methods copy_file / move_file / move_dir called on the filesystem objects themselves (memory, altroot over memory) for every (src, dest) of 6 paths incl. the root path "": result class and the tree afterwards, async against sync',
     'adiff:handles': '6 scenarios of write handles that overlap (idle handle dropped last, repeated flush after a foreign write, two append handles) or outlive their file (idle / with data / removed between write and an explicit flush, observed while still open) on memory, altroot, overlay: the async tree and bytes end up like the sync ones',
     'adiff:transfer': 'copy_file / move_file from a memory / altroot / physical source to another in-memory filesystem, with and without an existing destination; copy_dir / move_dir into a destination filesystem that refuses one file (fails part-way at 2 positions, or not at all): outcome class and both trees afterwards: async against sync',
